@@ -16,3 +16,4 @@ CFG = {
     'assumptions': ['Ed25519 signatures cannot be forged and SHA-256 has no collisions'],
 }
 CFG['level_text'] += ' Restarting-client scenarios also lose the stored head (or roll it back to the common prefix) while the cache survives, look a cached record up and then meet the forked server.'
+CFG['level_text'] += " The operator also signs a size-0 head with a wrong hash (served with a record, or left as the stored head): the lookup must fail; a fifth of the fork scenarios carry a 70 KiB co-signature line in branch B's heads."
